@@ -523,3 +523,62 @@ Print Assumptions C05_source_parse_full_is_model.
 Print Assumptions C05_tiling_source_full.
 Print Assumptions C05_source_keyboard_walk_total.
 Print Assumptions C05_source_keyboard_walk_total_c.
+
+(* ---- translator tie of the trainer's orchestration (harness/translate_trainer_run.py, gen/TrainerRun_gen.v:
+   the whole of run_trainer, translated on every run): "every password the trainer accepts is parsed exactly once,
+   in pass 2, by one parser".  For EVERY instantiation of the collaborators: a run that returns True made ONE
+   PCFGPasswordParser (from the detector as pass 1 left it); the parser is the fold of parse over the sequence the
+   reader yields - each password of the sequence once, in order - then goes through print_statistics (which
+   returns it unchanged: C06_source_print_statistics_reads_only) and to the writers ---- *)
+From Pcfg Require Import TextFile Counters ProbAlg Pipeline WriterRt WriterSpec TrainerRunRt TrainerRunModel TrainerRunProofs TrainerRunGenProofs
+     TrainerRunGenFacts TrainerRunInst.
+From PcfgGen Require Import TrainerRun_gen.
+
+Theorem C05_source_parsed_exactly_once : forall (O : numops) (C : collab O) (pi : pinfo O) (base : path) (w w' : c_W C),
+  py_run_trainer C pi base w = (Ok (Some true), w') ->
+  exists (t : trained_objs C) (fi0 fiE : c_FI C) (seq : list TextFile.str) (mw2 : c_MW C) (pp0 pp1 : c_PP C),
+    c_TrainerFileInput C (pi_training_file pi) (pi_encoding pi) (pi_prefixcount pi) w = Ok fi0 /\
+    c_read_password C fi0 w = (seq, None, fiE) /\
+    c_PCFGPasswordParser C mw2 = Ok pp0 /\
+    fold_res (c_pp_parse C) seq pp0 = Ok pp1 /\
+    c_print_statistics C pp1 = Ok (to_parser t) /\
+    passes C pi w = Ok (inr t).
+Proof.
+  intros O C pi base w w' H. destruct (source_run_true C pi base w w' H) as (t & _ & _ & Hp & Hok & _).
+  destruct Hok. exists t. do 6 eexists. repeat (split; [eassumption|]). exact Hp.
+Qed.
+
+(* the collaborators instantiated with the component models (Segment.train / Segment.parse; the reader =
+   Reader.read_text): the parser handed to the writers holds exactly one result per password of the sequence, in
+   order, each the model's segmentation (C05_tiling / C05_counters are about Segment.parse) with the multi-word
+   table of pass 1, and its counters are the tallies of these results *)
+Theorem C05_source_counters_are_the_tallies :
+  forall (A : palg) (R : parith A) (E : env) (path_of : TextFile.str -> path) (rc : option TextFile.str -> bool -> Reader.rcfg)
+         (AGt OTt KSt : Type) ag_new ag_step ag_alpha ot_new ot_step ot_smooth ks_of level_of ks_counter
+         (repr : num (ops_of R) -> TextFile.str) (encb : TextFile.str -> N -> bool) (calc : counter (ops_of R) -> counter (ops_of R))
+         save_config save_omen (pi : pinfo (ops_of R)) (fs : fsys) (nm text : TextFile.str),
+  let PC := @pipe_collab A R E path_of rc AGt OTt KSt ag_new ag_step ag_alpha ot_new ot_step ot_smooth ks_of level_of
+                         ks_counter repr encb calc save_config save_omen in
+  pi_training_file pi = Some nm -> fs_get (path_of nm) fs = Some text ->
+  (ostr_truthy (pi_multiword pi) = true -> exists mnm mtext, pi_multiword pi = Some mnm /\ fs_get (path_of mnm) fs = Some mtext) ->
+  (e_mw_threshold E = 5%Z /\ e_mw_min_len E = 4%Z /\ e_mw_max_len E = 21%Z) ->
+  let seq := Reader.out (Reader.read_text (rc (pi_encoding pi) (pi_prefixcount pi)) text) in
+  Reader.npw (Reader.read_text (rc (pi_encoding pi) (pi_prefixcount pi)) text) = Z.of_nat (length seq) ->
+  forall (base : path) (fs' : fsys),
+  py_run_trainer PC pi base fs = (Ok (Some true), fs') ->
+  exists rs : list Segment.parsed,
+    let objs := pipe_objs R E path_of rc AGt OTt KSt ag_new ag_step ag_alpha ot_new ot_step ot_smooth ks_of level_of ks_counter
+                          repr encb calc save_config save_omen pi fs text rs in
+    Forall2 (fun pw x => parse_pw E (mw_pass E (o_multiword (pipe_options R path_of rc pi fs)) seq) pw = Segment.POk x) seq rs /\
+    passes PC pi fs = Ok (inr objs) /\
+    pp_results R (to_parser objs) = rs /\
+    pp_counters R (to_parser objs) = counters_of rs.
+Proof.
+  intros A R E path_of rc AGt OTt KSt ag_new ag_step ag_alpha ot_new ot_step ot_smooth ks_of level_of ks_counter repr encb calc
+         save_config save_omen pi fs nm text PC H1 H2 H3 H4 seq H5 base fs'.
+  exact (run_true_parsed_once R E path_of rc AGt OTt KSt ag_new ag_step ag_alpha ot_new ot_step ot_smooth ks_of level_of
+           ks_counter repr encb calc save_config save_omen pi fs nm text H1 H2 H3 H4 H5 base fs').
+Qed.
+
+Print Assumptions C05_source_parsed_exactly_once.
+Print Assumptions C05_source_counters_are_the_tallies.
